@@ -1,12 +1,15 @@
 (* C14 — generated native triggers version rows like the object-based path.
-   PARTIAL: no PostgreSQL exists in the sandbox; texec (Model/Trigger.v) is a hand-written semantics
-   of the statement forms the templates can produce and is in the trusted base.  Proved: alignment
-   and completeness of every generated upsert for every configuration; no write without an active
-   transaction or for a no-op update; for the first event on a row within a transaction (no
-   validity) the appended row is exactly the object path's row.  The full statement (several events
-   on one row within a transaction, with validity / flags / DELETE arm) is refuted for the code as
-   it is: Refuted/C14_refuted.v (open findings). *)
-From Continuum Require Import Model.Base Model.VTable Model.Trigger Proofs.TriggerP.
+   PARTIAL only in this respect: no PostgreSQL exists in the sandbox.  texec (Model/Trigger.v) is a
+   hand-written semantics of the statement forms the templates can produce; on every run it is compared
+   with SQLite EXECUTING the generated statements on the real version table (harness/pC14.py), and the
+   generated text is parsed back (fail-closed) and compared with `gen`.  Over the model the statement is
+   FULL: for every configuration with distinct column names and every sequence of row events grouped into
+   transactions - several events on one row within one transaction, deletes and re-inserts, validity
+   on/off, modification tracking on/off, excluded columns, events without an active transaction - the
+   generated trigger program leaves exactly the version rows the object-based path leaves
+   (C14_trigger_program_equals_object_path).  The two defects that refuted this for the original code
+   (F-C14-validity-self-close, F-C14-delete-arm) were repaired in /repo. *)
+From Continuum Require Import Model.Base Model.VTable Model.Trigger Model.TriggerSpec Proofs.TriggerP Proofs.TriggerFullP.
 
 Theorem C14_columns_and_values_aligned : forall g,
   Forall2 aligned1 (up_cols (tp_ins (gen g))) (up_vals (tp_ins (gen g))) /\
@@ -57,6 +60,43 @@ Theorem C14_partial_first_delete : forall g T old t,
              (if tg_tracker g then map (fun c => (tc_name c, true)) (tnonpk g) else [])].
 Proof. exact texec_first_delete. Qed.
 
+(* FULL statement.  evs_ok (Proofs/TriggerFullP.v) says what a sequence of row events is: transaction ids
+   do not go backwards, rows carry exactly the configured columns, and an INSERT arrives for a row that
+   already has a version in this transaction only if that version is a DELETE (the row was deleted
+   earlier in the transaction).  spec_run (Model/TriggerSpec.v) is the object-based path. *)
+Theorem C14_trigger_program_equals_object_path : forall g evs,
+  NoDup (map tc_name (tg_cols g)) -> evs_ok g [] evs ->
+  fold_left (fun t te => texec (gen g) (fst te) (snd te) t) evs [] = spec_run g evs.
+Proof. exact trigger_program_equals_object_path. Qed.
+
+(* one event, from any table satisfying the invariants (the inductive step), and the invariants *)
+Theorem C14_one_event : forall g, NoDup (map tc_name (tg_cols g)) ->
+  forall T e t, inv g t -> ev_ok g T e t ->
+  texec (gen g) (Some T) e t = spec_step g T e t /\ inv g (spec_step g T e t).
+Proof. intros g ND T e t I H. split; [apply step_eq | apply step_inv]; assumption. Qed.
+
+(* the hypotheses are decidable; the check evaluates them on every generated event sequence *)
+Theorem C14_hypotheses_decidable : forall g evs t, evs_okb g t evs = true -> evs_ok g t evs.
+Proof. exact evs_okb_sound. Qed.
+
+(* non-vacuity: insert, two updates and a delete + re-insert of one row inside transaction 5, then
+   transaction 6; validity and tracking on, one excluded column *)
+Definition C14_g : tcfg := mktcfg [mktc 1 true false; mktc 2 false false; mktc 3 false true] true true.
+Definition c14_row (a b : Z) : prow := [(1, Some 7); (2, Some a); (3, Some b)].
+Definition C14_evs : list (option Z * tevent) :=
+  [ (Some 5, TIns (c14_row 1 0)); (Some 5, TUpd (c14_row 1 0) (c14_row 2 0)); (Some 5, TUpd (c14_row 2 0) (c14_row 2 9));
+    (Some 5, TDel (c14_row 2 9)); (Some 5, TIns (c14_row 3 0)); (None, TUpd (c14_row 3 0) (c14_row 4 0));
+    (Some 6, TUpd (c14_row 4 0) (c14_row 5 0)) ].
+Example C14_full_example :
+  evs_okb C14_g [] C14_evs = true /\ NoDup (map tc_name (tg_cols C14_g)) /\
+  map (fun r => (tr_tx r, tr_end r, tr_op r, tr_dat r, tr_mod r)) (spec_run C14_g C14_evs) =
+  [ (5, Some 6, 1, [(1, Some 7); (2, Some 3)], [(2, true)]);
+    (6, None, 1, [(1, Some 7); (2, Some 5)], [(2, true)]) ].
+Proof.
+  split; [vm_compute; reflexivity|]. split; [|vm_compute; reflexivity].
+  simpl. repeat constructor; simpl; intuition discriminate.
+Qed.
+
 Example C14_example :
   let g := mktcfg [mktc 1 true false; mktc 2 false false; mktc 3 false true] true false in
   texec (gen g) (Some 5) (TIns [(1, Some 7); (2, Some 8); (3, Some 9)]) [] =
@@ -73,3 +113,7 @@ Print Assumptions C14_partial_first_insert.
 Print Assumptions C14_partial_first_update.
 Print Assumptions C14_partial_first_delete.
 Print Assumptions C14_example.
+Print Assumptions C14_trigger_program_equals_object_path.
+Print Assumptions C14_one_event.
+Print Assumptions C14_hypotheses_decidable.
+Print Assumptions C14_full_example.
